@@ -275,6 +275,30 @@ pub fn test_case(c: &ServeCase, stats: &mut Stats) -> Result<(), String>
             }
         }
     }
+    // path-like names: a valid (cached / recorded) name followed by further segments is not a hash
+    {
+        let rule_pair = recorded.keys().next().cloned();
+        let mut pathlike = vec![
+            format!("/files/{}/extra", valid), format!("/files/{}/{}", valid, valid), format!("/files/{}/../current_file_states", valid),
+            format!("/files/{}/..%2f..%2fcanary.txt", valid), format!("/files/{}/canary", valid), format!("/files/x/{}", valid),
+        ];
+        if let Some((rt, st)) = rule_pair
+        {
+            pathlike.push(format!("/rules/{}/{}/extra", rt, st));
+            pathlike.push(format!("/rules/{}/{}/{}", rt, st, st));
+            pathlike.push(format!("/rules/{}", rt));
+            pathlike.push(format!("/rules/x/{}/{}", rt, st));
+        }
+        for target in pathlike
+        {
+            let r = get(port, &target)?;
+            requests += 1;
+            if r.status != 404
+            {
+                return Err(format!("GET {} (path-like name) returned {} with {} bytes", target, r.status, r.body.len()));
+            }
+        }
+    }
     // other shapes: not judged beyond "answers, no canary, server alive"
     for target in ["/", "/files", "/files/", "/rules", "/rules/a", "/files/a/b", "/rules/a/b/c", "/canary.txt", "/.ruler/canary", "/files/../canary.txt", "/files//canary"]
     {
